@@ -1,5 +1,5 @@
 """C03 — faces are reciprocal: stored once, listed by both sides; periodic faces in reciprocal pairs (storage/label half)."""
-from . import rules, faces
+from . import rules, faces, grid
 from .. import smt, runner, extract
 
 
@@ -12,6 +12,9 @@ def run(tier, seed):
     obs += [x for x in o3 if "labels_right_is_neighbour" in x.name or "neighbour_position" in x.name or x.expect_sat]; fns.append(m3)
     o4, us = faces.face_init_obligations("C03")
     obs += [x for x in o4 if "face_labels" in x.name]; fns += [{"fn": us[1].label, "slice_sha": us[1].sha}]
+    # the position the exact predicate sees for a periodic neighbour is generator + shift too (globally consistent clip decisions)
+    o5, u5 = grid.right_loc_obligations("C03")
+    obs += [x for x in o5 if "neighbour_is_generator_plus_shift" in x.name or x.expect_sat]; fns += [{"fn": u.label, "slice_sha": u.sha} for u in u5]
     smt.discharge_all(obs, tier)
     results = [runner.from_smt(o) for o in obs]
     meta = {
@@ -19,7 +22,7 @@ def run(tier, seed):
         "assumptions": ["A-REAL for the exact-zero tests of the shift mapping (== 0. is exact in f64 as well)",
                         "the two cells of an unshifted face see exactly negated normals (IEEE negation symmetry of dx/dist) - used for 'valid dimensionality agrees on both sides'",
                         "geometric half (equal area / centroid / opposite normal from both sides, 'cell j has the face at all') needs the two float constructions to agree = C01: not claimed",
-                        "Voronoi::finalize linking faces to left and unshifted right: covered by C12's bounded stand-in, not here"],
+                        "Voronoi::finalize linking faces to left and unshifted right: proved under C12 (Verus), not repeated here"],
         "trusted_base": ["vx (syn 2 dump)", "vlib/symex.py", "z3 4.8.12 / z3 5.1 / cvc5 1.0"],
         "explanation": "should_construct_face sliced from from_convex_cell: for every pair i != j of constructed cells an unshifted face is emitted by exactly one side "
                        "(the lower index), shifted faces by each side, boundary faces always; labels (left, right, shift) are passed through unchanged from the "
